@@ -472,14 +472,7 @@ func (s *Spec) Next(t time.Time, loc *time.Location, arguableIsStar bool) (hit t
 	for first := true; ; first = false {
 		at := time.Unix(cur, 0).In(loc)
 		_, off := at.Zone()
-		_, zend := at.ZoneBounds()
-		endUnix := int64(1<<62 - 1)
-		if !zend.IsZero() {
-			endUnix = zend.Unix()
-		}
-		if endUnix <= cur {
-			panic(fmt.Sprintf("refcron: zone period does not advance at %v", at))
-		}
+		endUnix := periodEnd(cur, off, loc, startUnix+8*366*86400)
 		tr.Periods++
 		// fixed-offset view of this period: wall = UTC + off
 		w := time.Unix(cur+int64(off), 0).UTC()
@@ -523,6 +516,36 @@ func (s *Spec) Next(t time.Time, loc *time.Location, arguableIsStar bool) (hit t
 			tod = 0
 		}
 		cur = endUnix
+	}
+}
+
+// periodEnd returns the first unix second after cur at which the UTC offset of
+// loc differs from off (1<<62-1 if it never does, or not before the search horizon).
+// Zone boundaries that do not change the offset (a new abbreviation, the
+// year-by-year bookkeeping of extrapolated rules) are stepped over. For
+// extrapolated rules ZoneBounds can report an end that is already past (seen on
+// 31 December of leap years after 2037); the boundary is then looked for second
+// by second, trusting only the offsets.
+func periodEnd(cur int64, off int, loc *time.Location, horizon int64) int64 {
+	const never = int64(1<<62 - 1)
+	x := cur
+	for {
+		if x > horizon {
+			return never
+		}
+		at := time.Unix(x, 0).In(loc)
+		_, zend := at.ZoneBounds()
+		if zend.IsZero() {
+			return never
+		}
+		e := zend.Unix()
+		if e <= x {
+			e = x + 1
+		}
+		if _, o := time.Unix(e, 0).In(loc).Zone(); o != off {
+			return e
+		}
+		x = e
 	}
 }
 
